@@ -79,6 +79,8 @@ def check_C16(run):
     scen.append(sc_key("sess-lru-cap1-holders+churn", sessCache=True, sessPolicy="lru", sessCap=1, parts=2, workers=3, ops=1, policy="simple", shared=False, churn=True))
     scen.append(sc_key("sess-slru-cap1-holders+churn3", sessCache=True, sessPolicy="slru", sessCap=1, parts=3, workers=3, ops=2, policy="simple", shared=False, churn=True))
     scen.append(sc_key("sess-slru-cap2-share", sessCache=True, sessPolicy="slru", sessCap=2, parts=2, workers=3, ops=1, policy="simple", shared=False, samePart=True))
+    # tinylfu only has its admission window from capacity 100 on: more partitions than that, re-requested while in the window
+    scen.append(sc_key("sess-tinylfu-cap100-104parts", sessCache=True, sessPolicy="tinylfu", sessCap=100, parts=104, workers=2, ops=3, policy="simple", shared=False, samePart=True))
     scen.append(sc_key("sess-lru-cap1-expiry", sessCache=True, sessPolicy="lru", sessCap=2, sessExpiry=1, ticks=3, parts=2, workers=2, ops=2, policy="simple", shared=False, samePart=True))
     if not q:
         scen.append(sc_key("sess-slru-cap2-4parts-3w", sessCache=True, sessPolicy="slru", sessCap=2, parts=4, workers=3, ops=2, policy="simple", shared=False, samePart=True))
@@ -93,7 +95,9 @@ def stale_sk_part(run):
     """C20, concurrent part: several sessions hit a stale system key at once; it is unwrapped by the KMS once."""
     q = run.quick
     scen = [sc_key("stale-sk-2sessions", policy="simple", shared=False, R=1, staleSK=True, workers=2, parts=2, ops=1),
-            sc_key("stale-sk-3sessions-shared-ik", policy="lru", capacity=10, shared=True, R=1, staleSK=True, workers=3, parts=3, ops=1)]
+            sc_key("stale-sk-3sessions-shared-ik", policy="lru", capacity=10, shared=True, R=1, staleSK=True, workers=3, parts=3, ops=1),
+            # cached sessions: concurrent first requests for one partition end up on ONE session (and so on one warm IK cache)
+            sc_key("c20-sesscache-concurrent-first-get", sessCache=True, sessPolicy="slru", sessCap=1, parts=2, workers=3, ops=2, policy="simple", shared=False, samePart=True)]
     return explore(run, scen, random=30 if q else 300, pct=100 if q else 1000, dfs=300 if q else 4000, preempt=2, label="stale-sk")
 
 
